@@ -12,6 +12,9 @@
 //
 // A second sub-check, `held` (held_test.go), puts the value into a NAMED place and overwrites that place after
 // the operand was consumed: a value that was bound to a name or used as an earlier operand stays what it was.
+//
+// A third sub-check, `computed` (computed_test.go), varies the ORIGIN of the value instead of its route: the
+// result of an operation against the same value spelled as a literal, under & and a write through the pointer.
 package c20
 
 import (
